@@ -66,7 +66,14 @@ package html
 //@   loop 2 invariant 0 <= end && end <= len(l.text)
 //@   loop 2 decreases end
 
+// an attribute name keeps upper-case letters only if a template region was entered inside the name: some byte of the
+// name then equals the first byte of the opening delimiter
+//@ pred delimIn(l, lo, hi) := len(l.tmplBegin) > 0 && exists(q, lo, hi, l.r.buf[q] == l.tmplBegin[0])
 //@ func Lexer.shiftAttribute
+//@   ensures[F,C09] @key-lower: forall(k, 0, len(l.text), !isUpperC(l.text[k])) || delimIn(l, hOff(l, l.text), hOff(l, l.text) + len(l.text))
+//@   loop * candidate[F] l.hasTmpl ==> delimIn(l, old(l.r.pos), l.r.pos)
+//@   loop * candidate[F] nameHasTmpl ==> delimIn(l, old(l.r.pos), nameEnd + l.r.start)
+//@   loop * candidate[F] l.hasTmpl ==> delimIn(l, old(l.r.pos), nameEnd + l.r.start)
 //@   preserves[S] hScan(l)
 //@   ensures[F,C09] @lower: len(l.tmplBegin) == 0 ==> forall(k, 0, len(l.text), !isUpperC(l.text[k]))
 //@   ensures[F,C09] @tmpl: l.hasTmpl && !old(l.hasTmpl) ==> len(l.tmplBegin) > 0
